@@ -201,6 +201,10 @@ TARGETS: Dict[str, Tuple[Callable, Callable]] = {
     "mz": _t(lambda a: (a,), lambda a: MC.mz(a, charge=2)),
     "comp_mass": _t(lambda a: (a,), lambda a: MC.comp_mass(a)),
     "comp": _t(lambda a: (a,), lambda a: MC.comp(a, estimate_delta=True)),
+    "comp_mass_overrides": _t(lambda a: (a, [Mod("13C", 1)]), lambda a, iso: MC.comp_mass(a, charge=3, charge_adducts="+Na+", isotope_mods=iso)),
+    "comp_overrides": _t(lambda a: (a,), lambda a: MC.comp(a, estimate_delta=True, charge=2, isotope=1)),
+    "mass_overrides": _t(lambda a: (a, [Mod("15N", 1)]), lambda a, iso: MC.mass(a, charge=2, isotope_mods=iso, charge_adducts="+H+")),
+    "mz_overrides": _t(lambda a: (a, [Mod("D", 1)]), lambda a, iso: MC.mz(a, charge=1, isotope_mods=iso)),
     "condense_to_mass_mods": _t(lambda a: (a,), lambda a: MC.condense_to_mass_mods(a)),
     "mod_mass": _t(lambda a: ([Mod("Acetyl", 2), Mod(1.5, 1)],), lambda m: MC.mod_mass(m)),
     "chem_mass": _t(lambda a: ({"C": 2, "H": 3, "e": -1, "O": 0},), lambda d: CU.chem_mass(d)),
